@@ -78,6 +78,8 @@ CONSTANTS
                \*                            overwrites them), readiness() consumes last_readiness entirely, process_events
                \*                            overwrites last_readiness, wakes the one waker and never renews the registration
                \*   "no_rearm_after_event"   process_events returns Continue although a waker is still stored
+               \*   "readiness_consumed_whole"  take_readiness(x) clears both bits: a branch that is polled first and is not ready
+               \*                            steals the readiness of the other one, for ever (busy loop)
 
 Ends  == {1, 2}
 File  == 3
@@ -194,7 +196,7 @@ RegisterWaker(s, e, x, w) ==
 
 \* IoDispatcher::take_readiness (:270): only the bit asked for is consumed
 TakeLast(s, e, x) ==
-  [s EXCEPT !.ad[e].last = IF Old THEN {} ELSE @ \ {x}]
+  [s EXCEPT !.ad[e].last = IF Old \/ "readiness_consumed_whole" \in Variants THEN {} ELSE @ \ {x}]
 
 \* process_events (:291) for the readiness rd: the wakers that are woken
 WokenBy(s, e, rd) ==
